@@ -250,7 +250,23 @@ func runC07(c *Ctx, r *Report) {
 		}
 	}
 
-	// ---- R-C07.4
+	verifySigDominates(c, r, "R-C07.4")
+}
+
+func isStringish(t types.Type) bool {
+	b, ok := t.Underlying().(*types.Basic)
+	return ok && b.Info()&types.IsString != 0
+}
+
+func ldField(u *ssa.UnOp) *types.Var {
+	f, _ := fieldOf(u.X)
+	return f
+}
+
+// verifySigDominates: every success return of Entry.Verify is dominated by the true result of the
+// public-key signature check performed in this call.
+func verifySigDominates(c *Ctx, r *Report, rule string) {
+	p := c.P
 	verify := p.Func("entry", "Entry", "Verify")
 	okVars := map[types.Object]bool{}
 	walkNoLit(verify.Body, func(n ast.Node) bool {
@@ -265,7 +281,7 @@ func runC07(c *Ctx, r *Report) {
 		}
 		return true
 	})
-	r.Floor("R-C07.4", "signature checks in Entry.Verify", len(okVars), 1)
+	r.Floor(rule, "signature checks in Entry.Verify", len(okVars), 1)
 	vf := &Flow{P: p, Fn: verify, Entry: Facts{}}
 	vf.Edge = func(cond ast.Expr, taken bool, f Facts) {
 		for _, a := range splitCond(cond, taken) {
@@ -282,20 +298,11 @@ func runC07(c *Ctx, r *Report) {
 		}
 		if isNil, hasErr := errResultIsNil(p, verify, ret); hasErr && isNil {
 			nsucc++
-			r.Check(at["sigOK"], "R-C07.4", r.Key("R-C07.4", verify, "success-return", ""), ret.Pos(),
+			r.Check(at["sigOK"], rule, r.Key(rule, verify, "success-return", ""), ret.Pos(),
 				"Verify succeeds only after the public-key signature check returned true on this call",
 				"Verify can return success on a path that does not pass the signature check of this call (a cached or short-circuited verdict): an entry altered after an earlier successful verification is accepted")
 		}
 	})
-	r.Floor("R-C07.4", "success returns of Entry.Verify", nsucc, 1)
+	r.Floor(rule, "success returns of Entry.Verify", nsucc, 1)
 }
 
-func isStringish(t types.Type) bool {
-	b, ok := t.Underlying().(*types.Basic)
-	return ok && b.Info()&types.IsString != 0
-}
-
-func ldField(u *ssa.UnOp) *types.Var {
-	f, _ := fieldOf(u.X)
-	return f
-}
